@@ -21,3 +21,11 @@ EXPLANATION = 'bounded symbolic execution of the real InstAPI::query_rw_info aga
 OUTSIDE = ['the hardware-semantics half of the property (executing instructions on the host is not solver-based)', 'same-register idioms', 'implicit operands other than registers (string instructions, <mem(...)> operands)',
            'register-or-memory substitution (rm_ops_mask), CPU features and consecutive-register lead counts']
 ASSUMPTIONS = ['the database record is the oracle (db/isa_x86.json), with the errata listed in checks/C01/gen_forms.py']
+
+# ---- AArch64 register lists (the "run of consecutive registers" clause of the property), added after seeded change C12-m6
+import re as _re
+UNITS.append(Unit('a64rw', harness=['h_a64rw.cpp'], repo_units=['asmjit/arm/a64instapi.cpp', 'asmjit/arm/a64instdb.cpp']))
+for _fn in _re.findall(r'^HARNESS (h_\w+)\(\)', open(os.path.join(os.path.dirname(os.path.abspath(__file__)), 'h_a64rw.cpp')).read(), _re.M):
+    HARNESSES.append(Harness('a64rw', _fn, unwind=8, mem_gb=3, timeout=300,
+                             bounds='ldN / ldNr / stN with a list of N consecutive vector registers (first id symbolic, wrapping modulo 32), base register symbolic, addressing [xN] / immediate post-index / register post-index'))
+OUTSIDE += ['AArch64 read/write information other than the register-list forms (a64 query_rw_info reports no PSTATE flags: TODO in the source)']
